@@ -638,6 +638,17 @@ def check_record_layout(ck, rule, prog, wbody, rbody, owner_rx, label, reader_in
         return 0
     n = 0
     segs = W.segments
+    # a name is cut short only where its length field forces that: a 1-byte length field caps the name at 255 bytes, a 4-byte field
+    # holds any name - there the declared length must be the full length (a cap would silently shorten long names on reload)
+    for sg in segs:
+        if sg["fields"] == {"name"} and sg["value"] is not None and not sg.get("loop"):
+            w = affine(sg["width"])
+            if w is not None and set(w) <= {()} and int(w.get((), 0)) == 4 and show(sg["value"]) == "N":
+                ck.ob(rule, "%s/name-length-full" % label, False, "%s declares the name length in a 4-byte field but writes a TRUNCATED length (the name is capped although the field can hold its full length): names beyond the cap change on reload" % wbody.short, where=wbody.where(sg["line"]))
+                n += 1
+            elif w is not None and set(w) <= {()} and int(w.get((), 0)) == 4:
+                ck.ob(rule, "%s/name-length-full" % label, True, "%s writes the full name length into its 4-byte field" % wbody.short, where=wbody.where(sg["line"]))
+                n += 1
     # ---- writer: declared total size == bytes emitted
     s0 = segs[0]
     if not size_field:
